@@ -61,6 +61,8 @@ def _loader(case):
         if pre.get("sizes0"):
             # the motif sizes of the object were different while the earlier sample was taken; now set through the property
             ld.motif_sizes = list(case["sizes"])
+        if pre.get("normalise_first") and callable(getattr(ld, "normalise_jdd", None)):
+            ld.normalise_jdd()          # the public normaliser was used on the earlier distribution; the new one is taken as given
         if pre["how"] == "setter":
             ld.jdd = dict(jdd)
         elif pre["how"] == "inplace":
@@ -75,6 +77,13 @@ def _loader(case):
     if case.get("cover"):
         # "any joint degree distribution": one that a loader derived from a clique cover (singleton cliques give motif size 1)
         return gcmpy.JointDegreeCover({JN.COVER: [list(c) for c in case["cover"]]})
+    if case.get("via") == "function":
+        # "any joint degree distribution": one that the function loader tabulated from a user callable over a degree box
+        # (the callable's weights may be tiny or huge in absolute terms)
+        T_ = len(case["sizes"])
+        bounds = [(min(k[i] for k in jdd), max(k[i] for k in jdd)) for i in range(T_)]
+        return gcmpy.JointDegreeFunction({JN.FP: (lambda jd: jdd.get(tuple(int(x) for x in jd), 0.0)), JN.MOTIF_SIZES: list(case["sizes"]),
+                                          JN.LOW_HIGH_DEGREE_BOUND: bounds})
     if case.get("via") == "entry":
         params[JN.JOINT_DEGREE_TYPE] = "manual"
         return gcmpy.JointDegreeDistribution.load_joint_degree(params)
@@ -249,6 +258,14 @@ def run(chk):
             for N in (1, 3):
                 for tr, _w in leaves({"keys": KS[1], "wts": wts1, "sizes": [3], "N": N, "scale": "norm", "pre": pre}, max_leaves=40):
                     traces.append(tr); chk.rng_leaves += 1
+    for wts0, wts1 in (([1, 2, 3], [6, 3, 1]), ([1, 1, 1], [1, 5, 1])):
+        for how in ("setter", "inplace"):
+            for scale in ("int", "unnorm", "huge"):
+                dists.append(dist_trace({"keys": KS[1], "wts": wts1, "sizes": [2], "N": 2, "scale": scale,
+                                         "pre": {"keys": KS[1], "wts": wts0, "how": how, "N": 3, "normalise_first": True}}))
+    for wts in ([1, 2, 3], [5, 1, 14], [1, 1, 1]):
+        for scale in ("int", "norm", "tiny", "huge", "unnorm"):
+            dists.append(dist_trace({"keys": KS[1], "wts": wts, "sizes": [2], "N": 2, "scale": scale, "via": "function"}))
     for dt in ("int64", "int32", "int16"):      # signed only: unsigned numpy scalars wrap on negation, which would make legitimate arithmetic (-t % m) look wrong
         for sizes in ([3], [2], [5]):
             for N in (1, 2, 3):
